@@ -269,43 +269,52 @@ def finish (f : CF R) (mesh : Mesh) (data : NDA (List R)) (inverse : Bool) : M (
       mkCF mesh f.nvdim data (some (vs.map ("ft_" ++ ·)))
         (some (renameMap f.vmap ("ft_" ++ ·) ("k_" ++ ·) vs [])) f.unit
 
-/-- component `c` of the data as a scalar index function -/
-def compOf (f : CF R) (c : Nat) (i : List Nat) : R := (f.data.get i).getD c 0
+/-- component `c` of an array of component lists, as a scalar index function -/
+def compA (a : NDA (List R)) (c : Nat) (i : List Nat) : R := (a.get i).getD c 0
 
-/-- `Field.fftn`: `fftshift(fftn(array, axes), axes)` on `mesh.fftn()` -/
+/-- `fftshift(fftn(array, axes), axes)` for an array of shape `(*n, nvdim)` -/
+def fftnArr (ρs : List (Root R)) (nvdim : Nat) (a : NDA (List R)) : NDA (List R) :=
+  ⟨a.shape, fun m => tab nvdim fun c => dftN ρs a.shape (compA a c) (fshift a.shape m)⟩
+
+/-- `ifftn(ifftshift(array, axes), axes)` -/
+def ifftnArr (ρs : List (Root R)) (nvdim : Nat) (a : NDA (List R)) : NDA (List R) :=
+  ⟨a.shape, fun j => tab nvdim fun c => idftN ρs a.shape (fun m => compA a c (ishift a.shape m)) j⟩
+
+/-- `fftshift(rfftn(array, axes), axes[:-1])`; the contract of `rfftn` is the DFT restricted
+to the half shape -/
+def rfftnArr (ρs : List (Root R)) (nvdim : Nat) (a : NDA (List R)) : NDA (List R) :=
+  ⟨halfShape a.shape, fun m => tab nvdim fun c => dftN ρs a.shape (compA a c) (fshiftR a.shape m)⟩
+
+/-- `irfftn(ifftshift(array, axes[:-1]), axes, s)`.  Contract of `irfftn` with output shape
+`s`: the inverse DFT of the Hermitian extension of the half spectrum. -/
+def irfftnArr (conj : R → R) (ρs : List (Root R)) (nvdim : Nat) (s : List Nat) (a : NDA (List R)) :
+    NDA (List R) :=
+  ⟨s, fun j => tab nvdim fun c =>
+    idftN ρs s (hermExt conj s fun m => compA a c (ishiftR a.shape m)) j⟩
+
+/-- `Field.fftn` on `mesh.fftn()` -/
 def fftn (ρs : List (Root R)) (f : CF R) : M (CF R) :=
   match meshFftn f.mesh false with
   | .error e => .error e
-  | .ok k =>
-    finish f k ⟨f.data.shape, fun m => tab f.nvdim fun c =>
-      dftN ρs f.data.shape (compOf f c) (fshift f.data.shape m)⟩ false
+  | .ok k => finish f k (fftnArr ρs f.nvdim f.data) false
 
-/-- `Field.ifftn`: `ifftn(ifftshift(array, axes), axes)` on `mesh.ifftn()` -/
+/-- `Field.ifftn` on `mesh.ifftn()` -/
 def ifftn (ρs : List (Root R)) (f : CF R) : M (CF R) :=
   match meshIfftn f.mesh false none with
   | .error e => .error e
-  | .ok k =>
-    finish f k ⟨f.data.shape, fun j => tab f.nvdim fun c =>
-      idftN ρs f.data.shape (fun m => compOf f c (ishift f.data.shape m)) j⟩ true
+  | .ok k => finish f k (ifftnArr ρs f.nvdim f.data) true
 
-/-- `Field.rfftn`: `fftshift(rfftn(array, axes), axes[:-1])` on `mesh.fftn(rfft=True)`; the
-contract of `rfftn` is the DFT on the half shape -/
+/-- `Field.rfftn` on `mesh.fftn(rfft=True)` -/
 def rfftn (ρs : List (Root R)) (f : CF R) : M (CF R) :=
   match meshFftn f.mesh true with
   | .error e => .error e
-  | .ok k =>
-    finish f k ⟨halfShape f.data.shape, fun m => tab f.nvdim fun c =>
-      dftN ρs f.data.shape (compOf f c) (fshiftR f.data.shape m)⟩ false
+  | .ok k => finish f k (rfftnArr ρs f.nvdim f.data) false
 
-/-- `Field.irfftn(shape)`: `irfftn(ifftshift(array, axes[:-1]), axes, s=shape)` on
-`mesh.ifftn(rfft=True, shape)`.  Contract of `irfftn` with output shape `s`: the inverse DFT
-of the Hermitian extension of the half spectrum. -/
+/-- `Field.irfftn(shape)` on `mesh.ifftn(rfft=True, shape)` -/
 def irfftn (conj : R → R) (ρs : List (Root R)) (f : CF R) (shape : Option (List Nat)) : M (CF R) :=
   match meshIfftn f.mesh true shape with
   | .error e => .error e
-  | .ok k =>
-    finish f k ⟨k.n, fun j => tab f.nvdim fun c =>
-      idftN ρs k.n (hermExt conj k.n fun m => compOf f c (ishiftR f.data.shape m)) j⟩ true
+  | .ok k => finish f k (irfftnArr conj ρs f.nvdim k.n f.data) true
 
 end ring
 
